@@ -150,6 +150,18 @@ Definition run (fn : str) (args : list str) : str :=
         | SelErr => s2l "ERR"
         end
     | _ => s2l "?" end
+  else if str_eqb fn (s2l "jobsopt") then
+    (* the -j value -> R (rejected) or the number of jobs *)
+    match args with
+    | [n] => match parse_jobs (z_of_str n) with None => [82] | Some j => nat_str j end
+    | _ => s2l "?" end
+  else if str_eqb fn (s2l "workers") then
+    (* MESON_TESTTHREADS, MESON_NUM_PROCESSES (U = unset, G = not an integer, else the integer), cpus *)
+    match args with
+    | [tth; npr; cpus] =>
+        let ev (s : str) := match s with [85] => EnvUnset | [71] => EnvGarbage | _ => EnvInt (z_of_str s) end in
+        nat_str (determine_worker_count (ev tth) (ev npr) (nat_of_str cpus))
+    | _ => s2l "?" end
   else if str_eqb fn (s2l "timeout") then
     match args with
     | [ia; t; m] =>
